@@ -157,10 +157,9 @@ Proof. exact solution_netlist_rt_refuted. Qed.
 Print Assumptions C19_solution_netlist_rt_refuted.
 
 Theorem C19_legal_netlist_rt_refuted : forall sqrt_o,
-  (exists n t n', read_netlist sqrt_o eps_ref doc_weight_rects = Ok n /\ legal_netlist n = Some t /\
-                  read_netlist sqrt_o eps_ref t = Ok n' /\ map n_weight (nl_nets n') <> map n_weight (nl_nets n)) /\
-  (exists n t n', read_netlist sqrt_o eps_ref doc_hard_int = Ok n /\ legal_netlist n = Some t /\
-                  read_netlist sqrt_o eps_ref t = Ok n' /\ map m_fixed (nl_modules n) = [false] /\
-                  map m_fixed (nl_modules n') = [true]).
+  exists n t n', read_netlist sqrt_o eps_ref doc_weight_rects = Ok n /\ legal_netlist n = Some t /\
+                 read_netlist sqrt_o eps_ref t = Ok n' /\
+                 map n_weight (nl_nets n') <> map n_weight (nl_nets n) /\
+                 map mr_region (nl_rects n') <> map mr_region (nl_rects n).
 Proof. exact legal_netlist_rt_refuted. Qed.
 Print Assumptions C19_legal_netlist_rt_refuted.
